@@ -5,6 +5,8 @@ package server
 import (
 	"fmt"
 	"net"
+	"runtime"
+	"sync"
 	"sync/atomic"
 
 	"github.com/tidwall/buntdb"
@@ -38,6 +40,7 @@ type VerifCmd struct {
 	JSON     bool   // output type of the reply
 	AofSize  int    // s.aofsz after the command
 	Port     int
+	Mode     string // mode in which the calling goroutine holds the server lock: "W", "R" or ""
 }
 
 var verifSeq atomic.Int64
@@ -62,6 +65,7 @@ func verifCmdDone(s *Server, client *Client, msg *Message, write *bool, begin in
 		JSON:     msg.OutputType == JSON,
 		AofSize:  s.aofsz,
 		Port:     s.port,
+		Mode:     s.VerifLockMode(),
 	}
 	if begin <= len(client.out) {
 		ev.Reply = append([]byte(nil), client.out[begin:]...)
@@ -308,4 +312,58 @@ func (s *Server) VerifIdle() bool {
 		})
 	}
 	return pending == 0
+}
+
+// verifLock wraps the server lock and remembers, per goroutine, in which mode
+// it is held, so that hooks can report the lock discipline (C07).
+type verifLock struct {
+	rwlocker
+	mu    sync.Mutex
+	modes map[int64]string
+}
+
+func verifWrapLock(l rwlocker) rwlocker {
+	return &verifLock{rwlocker: l, modes: map[int64]string{}}
+}
+
+func verifGoID() int64 {
+	var buf [64]byte
+	n := runtime.Stack(buf[:], false)
+	var id int64
+	for _, c := range buf[len("goroutine "):n] {
+		if c < '0' || c > '9' {
+			break
+		}
+		id = id*10 + int64(c-'0')
+	}
+	return id
+}
+
+func (l *verifLock) set(mode string) {
+	id := verifGoID()
+	l.mu.Lock()
+	if mode == "" {
+		delete(l.modes, id)
+	} else {
+		l.modes[id] = mode
+	}
+	l.mu.Unlock()
+}
+
+func (l *verifLock) Lock()            { l.rwlocker.Lock(); l.set("W") }
+func (l *verifLock) LockLowPriority() { l.rwlocker.LockLowPriority(); l.set("W") }
+func (l *verifLock) Unlock()          { l.set(""); l.rwlocker.Unlock() }
+func (l *verifLock) RLock()           { l.rwlocker.RLock(); l.set("R") }
+func (l *verifLock) RUnlock()         { l.set(""); l.rwlocker.RUnlock() }
+
+// VerifLockMode returns "W", "R" or "" for the calling goroutine.
+func (s *Server) VerifLockMode() string {
+	l, ok := s.mu.(*verifLock)
+	if !ok {
+		return ""
+	}
+	id := verifGoID()
+	l.mu.Lock()
+	defer l.mu.Unlock()
+	return l.modes[id]
 }
